@@ -89,6 +89,9 @@ def fp_frontend_case(cls, rng, keep, res, kval=None, form=None):
         f.raw_to_bv() == k.raw_to_bv(), f.raw_to_bv()[sort.length - 1] == 1, f.raw_to_bv()[sort.length - 1] == 0, claripy.fpLT(claripy.fpDiv(rm, one, f), claripy.FPV(0.0, sort)),
         claripy.fpGT(claripy.fpDiv(rm, one, f), claripy.FPV(0.0, sort)), f == k, f != k, claripy.fpIsNaN(f), claripy.fpIsInf(f), f == claripy.fpNeg(k), claripy.fpNeg(f).raw_to_bv() == claripy.fpNeg(k).raw_to_bv(),
         claripy.fpEQ(f, f), claripy.fpLEQ(f, k), claripy.fpGEQ(f, k), g == f, claripy.fpAbs(f).raw_to_bv() == claripy.fpAbs(k).raw_to_bv(),
+        # orderings and their negations, constant on either side (Not(a < b) is not a >= b when one of them is NaN)
+        claripy.Not(claripy.fpLT(k, f)), claripy.Not(claripy.fpLEQ(f, k)), claripy.Not(claripy.fpGT(f, k)), claripy.Not(claripy.fpGEQ(k, f)), claripy.fpLT(k, f), claripy.fpGT(k, f),
+        claripy.Not(claripy.fpLT(f, g)), claripy.Or(claripy.fpLT(f, k), claripy.fpGEQ(f, k)), claripy.And(claripy.Not(claripy.fpLT(f, k)), claripy.Not(claripy.fpGEQ(f, k))),
     ]
     for e in qs:
         for which in ("is_true", "is_false"):
